@@ -124,6 +124,44 @@ class StoreStep(Harness):
         if r[0] != 'ok': return True, 'store step %r -> %s %s' % (case['show'], r[0], r[1])
         return r[1][0] != 'coherent', 'store step %r -> %s' % (case['show'], [native.unhx(x) if i else x for i, x in enumerate(r[1])])
 
+from harness.c07 import SheetMove
+from harness.c17 import sym_coord
+class MoveCopyStep(Harness):
+    """move_range / copy_range rebuild part of the store themselves: the same coherence observers as for the single operations"""
+    name = 'store.move_copy'; property_id = 'C10'
+    entry = [WS + 'move_range', WS + 'copy_range', WS + 'move_or_copy_range', WS + 'get_cell_collection_sorted', WS + 'get_row_dimension']
+    def __init__(self, tier):
+        self.D = 3 if tier == 'thorough' else 2
+        self.doc = 'move_range / copy_range of a symbolic rectangle by a symbolic offset on a real Worksheet holding two cells; afterwards the store is coherent: sorted listing strictly ascending, listings agree, every listed cell is found at its own coordinate, its row is known to the writer, by-row / by-column listings and highest column/row agree'
+        self.bounds = {'cells': 2, 'domain': '1..%d x 1..%d for the source rectangle, cells in 1..%d' % (self.D, self.D, 2 * self.D), 'offset': 'every offset that keeps the destination inside the grid'}
+    def run(self, it, ctx, res):
+        D = self.D
+        mv = ctx.branch(ctx.sym_bool('is_move'))
+        ca = ctx.sym_int('ca', 1, 2 * D); ra = ctx.sym_int('ra', 1, 2 * D); cb = ctx.sym_int('cb', 1, 2 * D); rb = ctx.sym_int('rb', 1, 2 * D)
+        ctx.assume(z3.Or(ca != cb, ra != rb))
+        c1 = ctx.sym_int('c1', 1, D); c2 = ctx.sym_int('c2', 1, D); r1 = ctx.sym_int('r1', 1, D); r2 = ctx.sym_int('r2', 1, D)
+        dc = ctx.sym_int('dc', -D, D); dr = ctx.sym_int('dr', -D, D)
+        ctx.assume(z3.And(c1 <= c2, r1 <= r2, c1 + dc >= 1, r1 + dr >= 1, z3.Or(dc != 0, dr != 0)))
+        info = {'op': 'move_range' if mv else 'copy_range'}
+        text = sym_coord(ctx, c1, r1, False, False, 'a') + [58] + sym_coord(ctx, c2, r2, False, False, 'b')
+        try:
+            ws = new_sheet(it)
+            put_cell(it, ws, ca, ra, True); put_cell(it, ws, cb, rb, False)
+            it.call(WS + ('move_range' if mv else 'copy_range'), [Ref(ws), sref(SStr(text)), iref(dr), iref(dc)])
+        except Panic as e:
+            self.fail(ctx, res, 'no-panic', str(e), info=info); return
+        try:
+            StoreStep.observe(self, it, ctx, res, ws, [], 'cleanup', info)
+        except Panic as e:
+            self.fail(ctx, res, 'no-panic', 'observer: ' + str(e), info=info)
+    def case_of(self, v):
+        return SheetMove.case_of(self, v)
+    def confirm(self, case, profile):
+        (ca, ra), (cb, rb) = case['cells']; dc, dr = case['d']
+        r = native.run_cases([['store_move', case['move'], ca, ra, cb, rb, case['range'], dr + 100, dc + 100]], profile)[0]
+        if r[0] != 'ok': return True, '%r -> %s %s' % (case['show'], r[0], r[1])
+        return r[1][0] != 'coherent', 'store after %s %r -> %s' % ('move_range' if case['move'] else 'copy_range', case['show'], [native.unhx(x) if i else x for i, x in enumerate(r[1])])
+
 def harnesses(tier):
-    return [StoreStep(tier)]
+    return [StoreStep(tier), MoveCopyStep(tier)]
 OPTIONS = {'want_smir': True}
